@@ -8,6 +8,7 @@ import Mathlib.Tactic.Positivity
 import Mathlib.Algebra.Order.Floor.Ring
 import Resvg.Writer.Num
 import Resvg.Generated.WriterTables
+import Resvg.Writer.Color
 import Resvg.Lemmas.Basic
 
 namespace Resvg.Props.C08
@@ -142,5 +143,31 @@ theorem C08_pow_table_is_model (p : Nat) :
   have htab : ∀ k, k ≤ 12 → Generated.powVecTable.getD k 0 = 10 ^ k := by decide +kernel
   rw [htab _ hk]
   simp [powVec]
+
+/-! ### colours -/
+
+theorem hex_pair_round_trip (n : Nat) (h : n < 256) :
+    hexVal (hexDigit (n / 16 % 16)) = some (n / 16) ∧ hexVal (hexDigit (n % 16)) = some (n % 16) := by
+  have key : (List.range 256).all (fun n =>
+      hexVal (hexDigit (n / 16 % 16)) == some (n / 16) && hexVal (hexDigit (n % 16)) == some (n % 16)) = true := by
+    decide +kernel
+  have := (List.all_eq_true.mp key) n (List.mem_range.mpr h)
+  simpa using this
+
+/-- **colours survive the round trip exactly**: what `write_color` writes for any 8-bit colour is read
+    back by the `#rrggbb` branch of the colour parser as the same three channels -/
+theorem C08_color_round_trip (r g b : Nat) (hr : r < 256) (hg : g < 256) (hb : b < 256) :
+    parseHexColor (writeColor r g b) = some (r, g, b) := by
+  obtain ⟨r1, r2⟩ := hex_pair_round_trip r hr
+  obtain ⟨g1, g2⟩ := hex_pair_round_trip g hg
+  obtain ⟨b1, b2⟩ := hex_pair_round_trip b hb
+  simp only [writeColor, int2hex, List.cons_append, List.nil_append, parseHexColor, r1, r2, g1, g2, b1, b2]
+  congr 2 <;> [skip; congr 1] <;> omega
+
+/-- the table the translator reads off `write_color` is the model's, and the function has the modelled shape -/
+theorem C08_color_table_is_model :
+    Generated.colorHexChars.toList = hexChars ∧ Generated.colorWriterShape = true := by
+  constructor <;> decide
+
 
 end Resvg.Props.C08
